@@ -281,7 +281,8 @@ fn is_flag(v: &Variable) -> bool {
 
 /// List-mode valuations for the variables of the given expressions: boundary x boundary for the first two
 /// variables, relations x = y + c for the constants c of the shape, random picks.
-fn list_vals(es: &[&Expression], rng: &mut Rng, n_random: usize, full: bool) -> Value {
+fn list_vals(es: &[&Expression], rng: &mut Rng, n_random: usize, level: u8) -> Value {
+    let full = level >= 1;
     let vars = vars_of(es);
     let mut consts = Vec::new();
     for e in es {
@@ -302,10 +303,16 @@ fn list_vals(es: &[&Expression], rng: &mut Rng, n_random: usize, full: bool) -> 
         }
     };
     let dom = |v: &Variable| -> Vec<u128> {
+        let s = u64::from(v.size);
         if is_flag(v) {
             vec![0, 1]
+        } else if level >= 2 {
+            boundary_vals(s)
         } else {
-            boundary_vals(u64::from(v.size))
+            let mut d = vec![0, 1, mask(s), 1u128 << (8 * s - 1), (1u128 << (8 * s - 1)) - 1, 0x80 & mask(s)];
+            d.sort();
+            d.dedup();
+            d
         }
     };
     if vars.is_empty() {
@@ -375,6 +382,15 @@ fn list_vals(es: &[&Expression], rng: &mut Rng, n_random: usize, full: bool) -> 
     )
 }
 
+fn has_wide_division(e: &Expression) -> bool {
+    match e {
+        Expression::BinOp { op, lhs, rhs } => {
+            (matches!(op, IntDiv | IntRem | IntSDiv | IntSRem) && u64::from(lhs.bytesize()) > 2) || has_wide_division(lhs) || has_wide_division(rhs)
+        }
+        Expression::UnOp { arg, .. } | Expression::Cast { arg, .. } | Expression::Subpiece { arg, .. } => has_wide_division(arg),
+        _ => false,
+    }
+}
 /// Can TLC enumerate ALL valuations (ExprRewrite!ExhaustiveOK and T_X02!Exh1OK)?  Returns the number of
 /// valuations, or None.
 fn exhaustive_cost(es: &[&Expression], ignore_bool_of: Option<&Variable>) -> Option<u64> {
@@ -391,6 +407,10 @@ fn exhaustive_cost(es: &[&Expression], ignore_bool_of: Option<&Variable>) -> Opt
     }
     let wide = vars.iter().filter(|v| !bools.contains(&v.name)).count();
     if wide > 2 {
+        return None;
+    }
+    // (bit-serial division of 4..16 byte operands costs the TLC oracle milliseconds per evaluation)
+    if wide == 2 && es.iter().any(|e| has_wide_division(e)) {
         return None;
     }
     Some(256u64.pow(wide as u32) * 2u64.pow((vars.len() - wide) as u32))
@@ -897,6 +917,8 @@ struct Gen<'a> {
     rng: Rng,
     /// how many events may still ask TLC for more than 2^9 valuations (quick tier budget)
     exh_budget: i64,
+    /// 2: boundary x boundary over 12 boundary values (systematic families), 1: over 6 (nested, random, subst, builder)
+    level: u8,
     exh_events: u64,
     exh_valuations: u64,
     list_events: u64,
@@ -919,8 +941,9 @@ impl<'a> Gen<'a> {
             _ => {
                 self.list_events += 1;
                 // (nothing is evaluated for r = e: two valuations are enough)
-                let n = if trivial { 2 } else if self.out.quick() { 16 } else { 48 };
-                ("list".to_string(), list_vals(es, &mut self.rng, n, !trivial))
+                let n = if trivial { 2 } else if self.out.quick() { 16 } else { 32 };
+                let level = if trivial { 0 } else { self.level };
+                ("list".to_string(), list_vals(es, &mut self.rng, n, level))
             }
         }
     }
@@ -949,6 +972,7 @@ pub fn gen(out: &mut Out, _sub: &str) {
         out,
         rng: Rng::new(seed ^ 0x0000_5802),
         exh_budget: if thorough { i64::MAX } else { 14 },
+        level: 2,
         exh_events: 0,
         exh_valuations: 0,
         list_events: 0,
@@ -997,6 +1021,7 @@ pub fn gen(out: &mut Out, _sub: &str) {
     // ---- nested two levels: wrapped leaves and parents of the shapes above --------------------------
     // (from here on the number of events for which TLC enumerates 65536 valuations is budgeted per section)
     g.exh_budget = if thorough { 200 } else { 4 };
+    g.level = 1;
     let n_nested = g.out.size(700, 9000);
     for i in 0..n_nested {
         let (f, e) = g.rng.pick(&pool).clone();
